@@ -83,7 +83,7 @@ ASSUMPTIONS_BY_ENGINE = {
               "TTL deadlines within 1 s of an observation are not judged"],
 }
 
-DETERMINISM_SCENARIOS = ["staletail", "general", "election", "lease", "durability", "lag", "snapshot", "membership", "deadline"]
+DETERMINISM_SCENARIOS = ["newleader", "reelect", "watch", "routing", "staletail", "general", "election", "lease", "durability", "lag", "snapshot", "membership", "deadline"]
 
 
 # Scope mask (not a known finding): the properties quantify over crashes of a *minority* of voters
@@ -115,11 +115,11 @@ PROPS = {
                         B("durability", "durability", 60, 600), B("snapshot", "snapshot", 40, 400, masks=["batch_promote"]),
                         B("reelect", "reelect", 120, 1200)]},
     "C05": {"batches": [B("durability", "durability", 140, 1400), B("election", "election", 80, 800),
-                        B("general", "general", 60, 600), B("reelect", "reelect", 120, 1200)]},
+                        B("general", "general", 60, 600), B("reelect", "reelect", 120, 1200), B("newleader", "newleader", 60, 600)]},
     "C06": {"batches": [B("general", "general", 120, 1200), B("durability", "durability", 80, 800),
                         B("lag", "lag", 40, 400), B("exposed_snapshot", "snapshot", 40, 400, masks=["batch_promote"])]},
     "C07": {"batches": [B("staletail", "staletail", 140, 1400), B("election", "election", 60, 600), B("lag", "lag", 60, 600),
-                        B("general", "general", 40, 400)]},
+                        B("general", "general", 40, 400), B("newleader", "newleader", 60, 600)]},
     "C08": {"batches": [B("lag", "lag", 180, 1800), B("general", "general", 100, 1000)]},
     "C09": {"batches": [B("general", "general", 100, 1000), B("election", "election", 80, 800),
                         B("membership", "membership", 80, 800), B("lag", "lag", 40, 400),
@@ -179,13 +179,14 @@ PROPS = {
                     "(RocksDB: at the point between iteration and revision read); non-trivial = at least one interleaved scan"},
     "C26": {"batches": [B("exposed_membership", "membership", 160, 1600, masks=["snapshot_install"]),
                         B("general_exposed", "general", 80, 800, masks=["snapshot_install"])]},
-    "C27": {"batches": [B("membership", "membership", 180, 1800), B("general", "general", 60, 600)]},
+    "C27": {"batches": [B("membership", "membership", 180, 1800), B("general", "general", 60, 600),
+                        B("lease_with_learner", "leaselearner", 140, 1400)]},
     "C28": {"batches": [B("membership_restarts", "membership", 200, 2000), B("general", "general", 80, 800)]},
     "C29": {"batches": [B("general", "general", 140, 1400), B("election", "election", 80, 800), B("deadline", "deadline", 60, 600)]},
     "C30": {"batches": [B("deadline", "deadline", 160, 1600), B("election", "election", 80, 800), B("general", "general", 40, 400)]},
     "C31": {"batches": [B("election", "election", 160, 1600), B("general", "general", 80, 800), B("membership", "membership", 40, 400)]},
     "C32": {"batches": [B("general", "general", 120, 1200), B("election", "election", 60, 600), B("durability", "durability", 60, 600),
-                        B("lag", "lag", 40, 400)]},
+                        B("lag", "lag", 40, 400), B("newleader", "newleader", 100, 1000)]},
     "C33": {"batches": [B("snapshot_exposed", "snapshot", 200, 2000, masks=["batch_promote"]),
                         B("general_exposed", "general", 80, 800, masks=["batch_promote"])]},
     "C35": {"batches": [B("routing", "routing", 120, 1200), B("general", "general", 80, 800)]},
